@@ -398,8 +398,8 @@ def job_extend(job):
             if bad or fbad:
                 newyear = cfg["plant"].startswith("1")
                 out["failures"].append({
-                    "signature": "EXTEND|%s|%s" % ("SwitchGDD=1" if cfg["kind"] == "switch" else cfg["kind"],
-                                                    "season-spans-new-year" if newyear else "season-within-year"),
+                    "signature": ("EXTEND|SwitchGDD=1" if cfg["kind"] == "switch" else
+                                  "EXTEND|%s|%s" % (cfg["kind"], "season-spans-new-year" if newyear else "season-within-year")),
                     "clause": "extending the end date leaves the results of already completed seasons unchanged",
                     "detail": "end %s -> %s (+%d d); base completed %d season(s), last harvest step %d; %s%s%s ; case %s" % (
                         cfg["end"], c2["end"], d, ndone, upto - 1, "; ".join(b[2] for b in (bad or [])[:3]), (" ; " + fbad) if fbad else "",
@@ -488,12 +488,19 @@ def main():
                 rot = ei + 3 * r + a.seed if r == 0 else rng.randrange(0, 400)
                 cfg = mk_cfg(entry, kind, year(entry[2]), rot)
                 pos = cut_positions(cfg, rng)
-                if quick:
+                if quick or r > 0:
                     pos = [pos[i] for i in sorted(rng.sample(range(len(pos)), min(6, len(pos))))]
                 variants = []
                 for (k, lab) in pos:
                     for var in ("temp", "rain", "et0"):
-                        shapes = PERTURB[var] if not quick else [PERTURB[var][(k + ei) % len(PERTURB[var])]]
+                        if quick:
+                            shapes = [PERTURB[var][(k + ei) % len(PERTURB[var])]]
+                        elif r == 0:
+                            # two shapes per variable and cut row, rotating so that all shapes occur for every configuration
+                            pi = [p[0] for p in pos].index(k)
+                            shapes = [PERTURB[var][(pi + j) % len(PERTURB[var])] for j in range(2)]
+                        else:
+                            shapes = PERTURB[var]
                         for sh in shapes:
                             variants.append((k, var, sh, lab))
                 # split into chunks for parallelism
@@ -515,7 +522,10 @@ def main():
                 combos = [combos[i] for i in sorted(rng.sample(range(len(combos)), 5))]
             variants = []
             for ci, (L, T) in enumerate(combos):
-                modes = ["real", "extreme", "nan"] if not quick else [["real", "extreme", "nan"][(ci + ei) % 3]]
+                if quick:
+                    modes = [["real", "extreme", "nan"][(ci + ei) % 3]]
+                else:
+                    modes = ["real", "extreme", "nan"] if (L in (0, 1, 400) and T in (0, 1, 400)) else [["real", "extreme", "nan"][(ci + ei) % 3]]
                 for mo in modes:
                     variants.append((L, T, mo))
             step = 5 if quick else 12
@@ -529,6 +539,8 @@ def main():
             ends = (["+1/09/30", "+1/06/20", "+2/02/01", "+1/10/10"] if autumn else ["+0/12/30", "+1/03/01", "+1/08/01", "+0/10/15"])
             if quick:
                 ends = [ends[(ei + a.seed) % len(ends)], ends[(ei + a.seed + 2) % len(ends)]]
+            else:
+                ends = [ends[(ei + a.seed + j) % len(ends)] for j in range(3)]
             for bi, en in enumerate(ends):
                 y0 = year(entry[2])
                 cfg = mk_cfg(entry, kind, y0, ei + 2 * bi + a.seed)
@@ -536,7 +548,7 @@ def main():
                 cfg["end"] = "%d/%s" % (y0 + int(dy), md)
                 if cfg.get("irr") and cfg["irr"]["method"] == 3:
                     pass
-                ds = DELTAS if not quick else [DELTAS[i] for i in sorted(rng.sample(range(len(DELTAS)), 4))]
+                ds = DELTAS if not quick else sorted(set([DELTAS[i] for i in rng.sample(range(len(DELTAS)), 3)] + [365]))
                 step = 4 if quick else 6
                 for i in range(0, len(ds), step):
                     jobs.append({"type": "EXTEND", "cfg": cfg, "variants": ds[i:i + step]})
@@ -560,7 +572,7 @@ def main():
             for h in o["harness"]:
                 # model raising on a perturbed/garbage input or an invalid window is bookkeeping, not a harness fault;
                 # keep the list short
-                if len(exceptions) < 40:
+                if len(exceptions) < 40 and h not in exceptions:
                     exceptions.append(h)
             failures.extend(o["failures"])
             if o["sample"]:
@@ -585,13 +597,13 @@ def main():
             "random, end of window}%s x variables {temp,rain,et0} x shapes %s = %d perturbed runs. "
             "OUTSIDE: %d configurations (calendar-day, thermal-time and SwitchGDD=1 crops) x (leading,trailing) in {0,1,30,365,400}^2 minus (0,0)%s "
             "x fill {real records, extreme finite values, NaN}%s = %d runs against the exactly-clipped table. "
-            "EXTEND: %d base windows (each crop entry x %d base end dates: after harvest / mid-season / before next planting / in gap) x end-date "
+            "EXTEND: %d base windows (each crop entry x %d of 4 base end dates: after harvest / mid-season / before next planting / in gap) x end-date "
             "extension by %s days%s = %d extended runs (%d extended windows on which the model itself raises were skipped as invalid). "
             "All comparisons bitwise on water_flux, water_storage, crop_growth rows and final_stats rows."
-            % (len(cfgs_by_type["CUT"]), ncd, len(cut_entries) - ncd, nrot_cut, " (6 sampled per configuration)" if quick else "",
-               "1 per variable (rotating)" if quick else json.dumps(PERTURB), tot["CUT"][0],
-               len(cfgs_by_type["OUTSIDE"]), " (5 sampled per configuration)" if quick else "", " (1 rotating)" if quick else "", tot["OUTSIDE"][0],
-               len(cfgs_by_type["EXTEND"]), 2 if quick else 4, DELTAS, " (4 sampled per base window)" if quick else "", tot["EXTEND"][0], skipped["EXTEND"]))
+            % (len(cfgs_by_type["CUT"]), ncd, len(cut_entries) - ncd, nrot_cut, " (6 sampled per configuration)" if quick else " (all for the first rotation, 6 sampled for the second)",
+               "1 per variable (rotating)" if quick else "2 rotating per variable and cut row (first rotation) / all (second rotation) of " + json.dumps(PERTURB), tot["CUT"][0],
+               len(cfgs_by_type["OUTSIDE"]), " (5 sampled per configuration)" if quick else "", " (1 rotating)" if quick else " (all three when L,T in {0,1,400}, else 1 rotating)", tot["OUTSIDE"][0],
+               len(cfgs_by_type["EXTEND"]), 2 if quick else 3, DELTAS, " (365 d + 3 sampled per base window)" if quick else "", tot["EXTEND"][0], skipped["EXTEND"]))
         res["rule"] = ("a case is one variant run compared with its base run. Non-trivial -- CUT: the perturbation changed at least one output row "
                        ">= the cut row AND the base run has non-zero fluxes before the cut row (so there was something to protect); OUTSIDE: at least "
                        "one extra record was actually added; EXTEND: the base run completed at least one season (has a final_stats row). Base "
